@@ -87,4 +87,5 @@ func genericPack(c *Ctx) {
 	ruleJoinedErrWhole(c, "G-PARALLEL-ERR-WHOLE", pkgs, 0)
 	ruleWriteSwallow(c, "G-WRITE-SWALLOW", pkgs, 0)
 	ruleRangeKey(c, "G-RANGE-KEY-AS-ELEMENT", pkgs)
+	ruleMapAppendKey(c, "G-MAP-APPEND-KEY", pkgs)
 }
